@@ -506,7 +506,7 @@ func c13Solo(c *mon.Ctx) {
 		what string
 		do   func()
 	}{"after registering a renamed variant of a lint looked up through the deprecated ByName", func() {
-		if v := lint.GlobalRegistry().ByName("e_ca_is_ca"); v != nil {
+		if v := lint.GlobalRegistry().ByName(someCertLint()); v != nil {
 			v.Name = "e_verif_added_variant"
 			lint.RegisterLint(v)
 		}
